@@ -20,6 +20,10 @@ RULES = {
              "comparison in if-form; a constant result is False from is_passed under yes == 0 / quorum not reached, or the "
              "if-form of the final comparison - any other condition (a veto share, a time window, a special-cased weight) makes "
              "the decision differ from the documented formula for some tally",
+    "R04.7": "decisions are about the recorded tally: inside the cw3 package every call of is_passed / is_rejected / current_status "
+             "is made on the proposal the calling method was invoked on (`self`), never on a copy with votes added - the early "
+             "decision is sound because is_passed / is_rejected bound the outstanding votes themselves; a forecast that completes the "
+             "tally and asks again gets the quorum for free",
     "R04.6": "nine decimals are exact: the fixed-point factor F of votes_needed is a multiple of 10^9, so F * weight * p is an "
              "integer for every percentage with up to nine decimal places and the ceiling division is exact",
 }
@@ -132,6 +136,7 @@ def run(ctx):
     from ..idioms import check_overflow_profile
     check_overflow_profile(ctx)
     check_decisions(ctx, paths)
+    check_receivers(ctx)
     # ---- R04.2 / R04.3
     vb = ctx.facts.bodies.get(VOTES_NEEDED)
     if not ctx.ob("R04.2", "anchor:votes_needed", vb is not None, detail="cw3 votes_needed not found", trivial=True):
@@ -171,6 +176,37 @@ def run(ctx):
             ctx.ob("R04.6", "votes_needed/factor", F % (10 ** 9) == 0, sites=[(vb.file, vb.line, vb.path)],
                    detail="fixed-point factor %d is not a multiple of 10^9: a percentage with 7 to 9 decimal places is truncated before the "
                           "ceiling division, so the required Yes weight can come out one vote too low" % F, sample={"F": F})
+
+
+def check_receivers(ctx):
+    """R04.7: inside the cw3 package the decision functions are asked about the proposal itself"""
+    from .cw3common import IS_REJECTED, CS
+    DEC = {IS_PASSED, IS_REJECTED, CS}
+    n = 0
+    for path, b in sorted(ctx.facts.bodies.items()):
+        if b.crate != "cw3" or b.kind != "fn" or "::Proposal::" not in path or path in (IS_PASSED, IS_REJECTED) or not b.argc:
+            continue
+        if b.locals[1].get("name") != "self":
+            continue
+        try:
+            ps = ctx.engine.summarise(path, opaque=DEC - {path})
+        except Exception:
+            continue
+        bad = []
+        for p in ps:
+            for t in [c[0] for c in p.conds] + [p.ret]:
+                for x in walk(t):
+                    if x[0] == "call" and x[1] in DEC and x[2]:
+                        n += 1
+                        r = x[2][0]
+                        if r != ("param", "self"):
+                            bad.append(show(r)[:120])
+        ctx.ob("R04.7", "%s asks about the proposal itself" % path.split("::")[-1], not bad, sites=[(b.file, b.line, b.path)],
+               detail="%s evaluates a decision function on %s, not on the proposal it was called on: a verdict for a tally that is not "
+                      "the recorded one (a what-if completion) is not the early decision the rules define" % (path, bad[:2]),
+               trivial=not bad)
+    # (a package that routes every decision through another type has no such call at all: nothing to ask about)
+    ctx.floor("R04.7", "Proposal methods examined", len([1 for k in ctx.order if ctx.obs[k].rule == "R04.7"]), 1)
 
 
 def _final_cmp(t, target):
